@@ -86,8 +86,8 @@ Mutants(t) ==
 (* (forwarding to the port it listens on or to another one), a capturing   *)
 (* receiver; or two machines playing ping-pong; one or two networks.       *)
 (***************************************************************************)
-VARIABLES count, byName, hexPort, msg, twoNets, fwd, swapArgs, arp, diffPorts, kind, auto
-vars == <<count, byName, hexPort, msg, twoNets, fwd, swapArgs, arp, diffPorts, kind, auto>>
+VARIABLES count, byName, hexPort, msg, twoNets, fwd, swapArgs, arp, diffPorts, kind, auto, anon
+vars == <<count, byName, hexPort, msg, twoNets, fwd, swapArgs, arp, diffPorts, kind, auto, anon>>
 RcvIp == "123.45.67.90"
 FwdIp == "123.45.67.91"
 Port == IF hexPort THEN "0xbeef" ELSE "48879"
@@ -100,20 +100,25 @@ Protos == IF auto THEN <<<<<<"name", "UDP">>>>>>
           ELSE <<<<<<"name", "IPv4">>>>, <<<<"name", "UDP">>>>>> \o (IF arp THEN <<<<<<"name", "ARP">>>>>> ELSE <<>>)
 Auto == IF auto THEN <<<<"auto-protocol", "true">>>> ELSE <<>>
 FirstHop == IF fwd THEN (IF byName THEN "fwd" ELSE FwdIp) ELSE (IF byName THEN "rcv" ELSE RcvIp)
+\* the three machines of a "send" description
+SndM == [opts |-> (IF anon THEN <<<<"count", "1">>>> ELSE Swap(<<<<"name", "snd">>>> \o (IF count > 0 THEN <<<<"count", ToString(count)>>>> ELSE <<>>))) \o Auto,
+         nets |-> <<<<<<"id", "5">>>>>> \o (IF twoNets THEN <<<<<<"id", "1">>>>>> ELSE <<>>),
+         protos |-> Protos,
+         apps |-> <<Swap(<<<<"name", "send_message">>, <<"message", msg>>, <<"to", FirstHop>>, <<"port", Port>>>>)>>]
+FwdM == [opts |-> <<<<"name", "fwd">>>> \o Auto, nets |-> <<<<<<"id", "5">>>>>>, protos |-> Protos,
+         apps |-> <<<<<<"name", "forward">>, <<"ip", FwdIp>>, <<"to", IF byName THEN "rcv" ELSE RcvIp>>,
+                      <<"local_port", Port>>, <<"remote_port", CapPort>>>>>>]
+\* (with two networks the receiver lists the network of its address SECOND)
+RcvM == [opts |-> <<<<"name", "rcv">>>> \o Auto, nets |-> (IF twoNets THEN <<<<<<"id", "1">>>>>> ELSE <<>>) \o <<<<<<"id", "5">>>>>>, protos |-> Protos,
+         apps |-> <<Swap(<<<<"name", "capture">>, <<"ip", RcvIp>>, <<"port", CapPort>>, <<"type", "count">>,
+                           <<"message_count", ToString(IF count = 0 THEN 1 ELSE count)>>>>)>>]
+\* usually sender, (forwarder,) receiver; with `anon` the sender has no name and is declared LAST, after the named
+\* machines it addresses
 SendTree ==
   [ nets |-> <<[id |-> "5", ips |-> <<<<<<"range", "123.45.67.89-95">>>>, <<<<"ip", "123.45.70.1">>>>, <<<<"range", "123.45.71.7-7">>>>>>]>>
              \o (IF twoNets THEN <<[id |-> "1", ips |-> <<<<<<"range", "12.34.56.89-90">>>>>>]>> ELSE <<>>),
-    machs |-> <<[opts |-> Swap(<<<<"name", "snd">>>> \o (IF count > 0 THEN <<<<"count", ToString(count)>>>> ELSE <<>>)) \o Auto,
-                 nets |-> <<<<<<"id", "5">>>>>> \o (IF twoNets THEN <<<<<<"id", "1">>>>>> ELSE <<>>),
-                 protos |-> Protos,
-                 apps |-> <<Swap(<<<<"name", "send_message">>, <<"message", msg>>, <<"to", FirstHop>>, <<"port", Port>>>>)>>]>>
-              \o (IF fwd THEN <<[opts |-> <<<<"name", "fwd">>>> \o Auto, nets |-> <<<<<<"id", "5">>>>>>, protos |-> Protos,
-                                 apps |-> <<<<<<"name", "forward">>, <<"ip", FwdIp>>, <<"to", IF byName THEN "rcv" ELSE RcvIp>>,
-                                              <<"local_port", Port>>, <<"remote_port", CapPort>>>>>>]>> ELSE <<>>)
-              \* (with two networks the receiver lists the network of its address SECOND)
-              \o <<[opts |-> <<<<"name", "rcv">>>> \o Auto, nets |-> (IF twoNets THEN <<<<<<"id", "1">>>>>> ELSE <<>>) \o <<<<<<"id", "5">>>>>>, protos |-> Protos,
-                    apps |-> <<Swap(<<<<"name", "capture">>, <<"ip", RcvIp>>, <<"port", CapPort>>, <<"type", "count">>,
-                                      <<"message_count", ToString(IF count = 0 THEN 1 ELSE count)>>>>)>>]>> ]
+    machs |-> IF anon THEN <<RcvM>> \o (IF fwd THEN <<FwdM>> ELSE <<>>) \o <<SndM>>
+              ELSE <<SndM>> \o (IF fwd THEN <<FwdM>> ELSE <<>>) \o <<RcvM>> ]
 \* two machines playing ping-pong: the starter sends a counter of 255, each side sends it back decremented, the
 \* side that reaches 0 ends the run: 255 datagrams in all
 PingIp == "123.45.67.89"
@@ -137,6 +142,8 @@ Init == /\ count \in 0..3 /\ byName \in BOOLEAN /\ hexPort \in BOOLEAN /\ msg \i
         /\ fwd \in BOOLEAN /\ swapArgs \in BOOLEAN /\ arp \in BOOLEAN
         /\ diffPorts \in BOOLEAN /\ kind \in {"send", "pp"} /\ auto \in BOOLEAN
         /\ (auto => ~arp)
+        /\ anon \in BOOLEAN
+        /\ (anon => (kind = "send" /\ msg = "Hello!" /\ ~hexPort /\ count = 0 /\ ~swapArgs))
         /\ (diffPorts => fwd)
         /\ (kind = "pp" => (count = 0 /\ msg = "Hello!" /\ ~fwd))
 Next == UNCHANGED vars
